@@ -40,11 +40,9 @@ func (r *ReferenceStorage) CheckAndSetReference(ref, old *plumbing.Reference) er
 		return r.SetReference(ref)
 	}
 
-	tmp, err := r.temporal.Reference(old.Name())
-	if err == plumbing.ErrReferenceNotFound {
-		tmp, err = r.ReferenceStorer.Reference(old.Name())
-	}
-
+	// Compare against the transaction's view, which also hides references
+	// removed in this transaction.
+	tmp, err := r.Reference(old.Name())
 	if err != nil {
 		return err
 	}
